@@ -94,7 +94,7 @@ def run (op : String) (args impl : List String) : Outcome :=
         let tr := transform toks rs
         let joined := joinTokens tr
         match rest with
-        | [trS, _joinedS, locs2, _stripped] =>
+        | [trS, joinedS, locs2, strippedS] =>
           let d2 := mkDelim kind sep locs2
           let stripped := stripLastDelimiter isSpace joined d2
           let model := s!"{kind} {sep} {locs} {showTokens toks} {showTokens tr} {showNatList joined} {locs2} {showNatList stripped}"
@@ -109,7 +109,14 @@ def run (op : String) (args impl : List String) : Outcome :=
                 let want := Spec.selectToken itoks e
                 tk.text != want.text || (!(Spec.select itoks.length e).isEmpty && tk.prefixLength != want.prefixLength)) with
               | some (tk, e) => specFail s!"[C10] expression selects {showNatList (Spec.selectToken itoks e).text}@{(Spec.selectToken itoks e).prefixLength} but got {showNatList tk.text}@{tk.prefixLength}"
-              | none => specPartition kind t itoks
+              | none =>
+                -- trailing delimiter (one occurrence) and trailing white space are stripped, nothing else
+                let ij := parseNatList joinedS
+                let wantStrip := stripLastDelimiter isSpace ij d2
+                if ij != joinTokens itr then specFail "[C10] the joined text is not the concatenation of the selected fields"
+                else if parseNatList strippedS != wantStrip then
+                  specFail s!"[C10] stripping the last delimiter of {joinedS} must give {showNatList wantStrip}"
+                else specPartition kind t itoks
           { model, spec, tags := ["transform", kind] ++ (if toks.length ≥ 2 then ["nt"] else []) ++
               (if rs.any (fun r => r.begin_ < 0 ∨ r.end_ < 0) then ["negative"] else []) }
         | _ => { model := "?", spec := specFail "[C10] unparsable answer" }
